@@ -60,7 +60,8 @@ def to_sym(node, env, cls):
         f = node.func
         if isinstance(f, ast.Attribute) and isinstance(f.value, ast.Name) and f.value.id == 'np' and len(node.args) == 1:
             x = to_sym(node.args[0], env, cls)
-            fn = {'log10': lambda u: sp.log(u, 10), 'log': sp.log, 'exp': sp.exp, 'sqrt': sp.sqrt, 'abs': sp.Abs}.get(f.attr)
+            fn = {'log10': lambda u: sp.log(u, 10), 'log': sp.log, 'exp': sp.exp, 'sqrt': sp.sqrt, 'abs': sp.Abs,
+                  'reciprocal': lambda u: 1 / u}.get(f.attr)     # (real arithmetic; integer-typed input is covered by the bounded check only)
             if fn is not None:
                 return fn(x)
         if isinstance(f, ast.Attribute) and isinstance(f.value, ast.Name) and f.value.id == 'np' and not node.keywords:
